@@ -73,6 +73,7 @@ def tasks(tier, seed):
     ts.append({"part": "fresh", "name": "fresh"})
     for k in range(4):
         ts.append({"part": "successive", "k": k, "name": "successive/%d" % k})
+    ts.append({"part": "app-callable", "name": "app-callable"})
     return ts
 
 
@@ -331,6 +332,44 @@ def successive_case(u, o, n=3):
     return None
 
 
+def callable_header_case(form, attempts_lost):
+    """WebSocketApp(header=<callable>) with a reconnect interval: the callable is the option, so every connection attempt sends what the
+    callable returns for THAT attempt (the option's documentation: it is called just before each connection attempt)."""
+    from .. import appsim, tnet
+    from ..explore import Chooser
+    calls = []
+
+    def header():
+        calls.append(len(calls) + 1)
+        k = len(calls)
+        return ["X-Attempt: %d" % k, "X-Fixed: f"] if form == "list" else {"X-Attempt: ".rstrip(": "): str(k), "X-Fixed": "f"}
+
+    lost = [lambda: tnet.ServerPeer(script=[(1.0, "eof", b"")]) for _ in range(attempts_lost)]
+    last = [lambda: tnet.ServerPeer(script=[(1.0, "data", R_close())])]
+    spec = {"url": "ws://h.example/app", "callbacks": ["on_open", "on_error", "on_close", "on_reconnect"], "app_kwargs": {"header": header},
+            "attempts": lost + last, "run_kwargs": {"reconnect": 1}, "horizon": 200.0}
+    run = appsim.AppRun(Chooser([]), spec)
+    res = run.execute()
+    label = "WebSocketApp(header=<callable returning a %s>), reconnect=1, %d lost connection(s) then a clean close" % (form, attempts_lost)
+    if res["abort"]:
+        return ({"kind": "app-run-aborted"}, "%s: %s" % (label, res["abort"]))
+    reqs = [p.request for p in run.net.peers]
+    if len(reqs) != attempts_lost + 1 or any(r is None or r.get("bad") for r in reqs):
+        return ({"kind": "request-wrong", "field": "attempts", "via": "app-callable"}, "%s: %d well-formed requests were seen" % (label, len([r for r in reqs if r and not r.get("bad")])))
+    for k, r in enumerate(reqs, 1):
+        got = (r["h"].get("x-attempt"), r["h"].get("x-fixed"))
+        if got != ([str(k)], ["f"]):
+            return ({"kind": "request-wrong", "field": "custom-header", "via": "app-callable", "nth": min(k, 2)},
+                    "%s: request %d carries X-Attempt %r / X-Fixed %r, the callable returned X-Attempt: %d for this attempt (it was called %d time(s))" % (
+                        label, k, got[0], got[1], k, len(calls)))
+    return None
+
+
+def R_close():
+    from ..ref import rfc6455 as R
+    return R.encode(R.CLOSE, b"\x03\xe8")
+
+
 def fresh_case():
     """three successive connections (two fresh objects + one object reused): keys pairwise distinct, one draw each"""
     lib.reset_globals()
@@ -404,6 +443,19 @@ def run_task(desc):
             for o in O:
                 run(u, o)
         res["samples"].append({"url": make_url(U[desc["ulo"]]), "options": "all 1152 combinations"})
+    elif part == "app-callable":
+        for form in ("list", "dict"):
+            for lost in (0, 1, 2):
+                n += 1
+                try:
+                    f = callable_header_case(form, lost)
+                except Exception as e:
+                    v = as_violation(e)
+                    if v is None:
+                        raise
+                    f = (v.sig, v.what)
+                if f is not None:
+                    runner.add_failure(res, f[0], f[1], {"case": "app-callable", "args": [form, lost]})
     elif part == "successive":
         for j, o in enumerate(O):
             if j % 4 != desc["k"]:
@@ -435,6 +487,8 @@ def replay(rep):
         f = fresh_case()
     elif rep["case"] == "successive":
         f = successive_case(tuple(rep["u"]), tuple(rep["o"]))
+    elif rep["case"] == "app-callable":
+        f = callable_header_case(*rep["args"])
     else:
         o = tuple(rep["o"])
         f = one_case(tuple(rep["u"]), o, rep.get("via"))
